@@ -8569,6 +8569,7 @@ tsk_identity_segments_update_pair(tsk_identity_segments_t *self, tsk_id_t a, tsk
     if (self->store_segments) {
         x = tsk_identity_segments_alloc_segment(self, left, right, node);
         if (x == NULL) {
+            ret = tsk_trace_error(TSK_ERR_NO_MEMORY);
             goto out;
         }
         if (list->tail == NULL) {
@@ -9319,6 +9320,7 @@ simplifier_init_position_lookup(simplifier_t *self)
 
     self->position_lookup = tsk_malloc((num_sites + 2) * sizeof(*self->position_lookup));
     if (self->position_lookup == NULL) {
+        ret = tsk_trace_error(TSK_ERR_NO_MEMORY);
         goto out;
     }
     self->position_lookup[0] = 0;
